@@ -107,7 +107,9 @@ def _free_paths(e) -> Set[str]:
         t = _path_text(n) if isinstance(n, (ast.Name, ast.Attribute, ast.Subscript)) else None
         if t:
             out.add(t)
-    return out
+    # keep the maximal paths only: `self._timeout is not None` depends on self._timeout (and on a re-binding of self),
+    # not on stores to other attributes of self
+    return {p for p in out if not any(o != p and (o.startswith(p + ".") or o.startswith(p + "[")) for o in out)}
 
 
 def _is_pure(e) -> Tuple[bool, bool]:
@@ -531,7 +533,7 @@ _MOD_CACHE: Dict[tuple, ast.Module] = {}
 _TABLE_CACHE: Dict[tuple, Dict[str, List[str]]] = {}
 
 
-def normalized(repo: Repo, relpaths) -> Repo:
+def normalized(repo: Repo, relpaths, only=None) -> Repo:
     """A copy of ``repo`` whose listed modules are normalised.  Normalised trees are
     cached per module by content digest (a mutant re-normalises only the module it changed)."""
     r = repo
@@ -544,6 +546,8 @@ def normalized(repo: Repo, relpaths) -> Repo:
             _TABLE_CACHE.clear()
         _TABLE_CACHE[tkey] = table
     for rel in rels:
+        if only is not None and rel not in only:
+            continue  # the keyword table is still built from all of ``relpaths``; only the modules a check reads are rewritten
         m = repo.modules[rel]
         key = (repo.root, rel, m.digest, tkey)
         tree = _MOD_CACHE.get(key)
